@@ -52,8 +52,9 @@ def load(patterns, entries=None):
         os.unlink(path)
 
 
-def run_harness(prog, fname, tables=None, max_unwind=400):
+def run_harness(prog, fname, tables=None, max_unwind=400, params=None):
     ex = Executor(prog, tables, max_unwind)
+    ex.params = dict(params or {})
     ex.run_inits()
     ex.harness = fname
     t0 = time.time()
